@@ -732,141 +732,7 @@ func (m *Model) RunScope(s *Sink, rule string) {
 	// Set: reserved name and type checks dominate the store
 	set := m.Method("object", "Env", "Set")
 	if set != nil {
-		var mu *ssa.MapUpdate
-		for _, b := range set.Blocks {
-			for _, in := range b.Instrs {
-				if x, ok := in.(*ssa.MapUpdate); ok {
-					mu = x
-				}
-			}
-		}
-		if mu == nil {
-			s.Violation(rule, fnKey(set)+"|stores the value", m.Pos(set.Pos()), "Set never stores the value")
-		} else {
-			// decided by evaluating Set (with whatever helpers it calls) on the finite set of cases that matter:
-			// name reserved or not; a visible variable exists or not, is nil or not, has the value's type or another.
-			getFn := m.Method("object", "Env", "Get")
-			type scen struct {
-				name                   string
-				key                    string
-				exists, oldNil, differ bool
-				wantStore              bool
-			}
-			scens := []scen{
-				{"the reserved name loop", "loop", false, false, false, false},
-				{"a new variable", "x", false, false, false, true},
-				{"a visible variable holding nil", "x", true, true, false, true},
-				{"a visible variable of the same type", "x", true, false, false, true},
-				{"a visible variable of another type", "x", true, false, true, false},
-			}
-			helpers := map[*ssa.Function]bool{}
-			for _, h := range m.helpersOf(set) {
-				helpers[h] = true
-			}
-			reservedOK, typedOK, undecided := true, true, ""
-			for _, sc := range scens {
-				recvTok := iObj{"env"}
-				ip := &Interp{m: m}
-				stored := false
-				usedGet := false
-				ip.call = func(c *ssa.Call, args []any) (any, bool) {
-					if c.Call.IsInvoke() && c.Call.Method.Name() == "Type" && len(args) == 1 {
-						if o, ok := args[0].(iObj); ok {
-							return constant.MakeString(o.kind), true
-						}
-						return nil, true
-					}
-					if sc2 := c.Call.StaticCallee(); sc2 != nil && sc2 == getFn && len(args) == 2 {
-						k, isK := args[1].(constant.Value)
-						if args[0] != any(recvTok) || !isK || k.Kind() != constant.String || constant.StringVal(k) != sc.key {
-							return nil, true // some other lookup: unknown
-						}
-						usedGet = true
-						if !sc.exists || sc.oldNil {
-							return iTuple{iNil{}, constant.MakeBool(sc.exists)}, true
-						}
-						return iTuple{iObj{"A"}, constant.MakeBool(true)}, true
-					}
-					return nil, false
-				}
-				ip.instr = func(in ssa.Instruction, depth int) {
-					if mu2, ok := in.(*ssa.MapUpdate); ok && strings.HasSuffix(fieldPathOf(mu2.Map), ".store") {
-						stored = true
-					}
-				}
-				valKind := "A"
-				if sc.differ {
-					valKind = "B"
-				}
-				ip.Run(set, []any{recvTok, constant.MakeString(sc.key), iObj{valKind}})
-				if ip.stuck != "" {
-					undecided = sc.name + ": " + ip.stuck
-					break
-				}
-				for _, l := range ip.lost {
-					if helpers[l] {
-						undecided = sc.name + ": helper " + fnKey(l) + " could not be evaluated"
-					}
-				}
-				if sc.exists && !usedGet && stored {
-					typedOK = false // stored without ever asking for the visible variable
-				}
-				if stored != sc.wantStore {
-					if sc.key == "loop" {
-						reservedOK = false
-					} else {
-						typedOK = false
-					}
-				}
-			}
-			if undecided != "" {
-				s.Undecided(rule, fnKey(set)+"|case evaluation", m.Pos(set.Pos()), "Env.Set could not be evaluated for the case %s", undecided)
-			}
-			reserved, typed := reservedOK && undecided == "", typedOK && undecided == ""
-			if reserved {
-				s.OK(rule, fnKey(set)+"|the name loop is refused", m.InstrPos(mu), "case evaluation: with key \"loop\" no store is reached")
-			} else {
-				s.Violation(rule, fnKey(set)+"|the name loop is refused", m.InstrPos(mu), "Set stores without first refusing the reserved name \"loop\"")
-			}
-			if typed {
-				s.OK(rule, fnKey(set)+"|a value of another type is refused", m.InstrPos(mu), "case evaluation over {absent, nil, same type, other type} of the variable visible through Get: the store is reached in exactly the first three")
-			} else {
-				s.Violation(rule, fnKey(set)+"|a value of another type is refused", m.InstrPos(mu), "Set does not store exactly when the variable visible through Get is absent, nil or of the value's type: a visible variable can be silently retyped (or a legal assignment is refused)")
-			}
-		}
-		// isTypeMismatch consults the whole chain through Get
-		get := m.Method("object", "Env", "Get")
-		if get == nil {
-			s.Undecided(rule, "object.(*Env).Get", "-", "not found")
-		} else {
-			// Get: outer consulted exactly when absent locally
-			okGet := false
-			for _, b := range get.Blocks {
-				for _, in := range b.Instrs {
-					c, ok := in.(*ssa.Call)
-					if !ok || c.Call.StaticCallee() != get || fieldPathOf(c.Call.Args[0]) != ".outer" {
-						continue
-					}
-					miss, nonNil := false, false
-					for _, f := range expandFacts(factsAt(b)) {
-						if ex, ok := f.Cond.(*ssa.Extract); ok && !f.Holds && ex.Index == 1 {
-							if lk, ok := ex.Tuple.(*ssa.Lookup); ok && fieldPathOf(lk.X) == ".store" {
-								miss = true
-							}
-						}
-						if bo, ok := f.Cond.(*ssa.BinOp); ok && fieldPathOf(bo.X) == ".outer" && isNilConst(bo.Y) && (bo.Op == token.NEQ) == f.Holds {
-							nonNil = true
-						}
-					}
-					okGet = miss && nonNil
-				}
-			}
-			if okGet {
-				s.OK(rule, fnKey(get)+"|falls back to the enclosing scope exactly when absent", m.Pos(get.Pos()), "e.outer.Get(name) is reached only on the miss edge of the local lookup and when an outer scope exists")
-			} else {
-				s.Violation(rule, fnKey(get)+"|falls back to the enclosing scope exactly when absent", m.Pos(get.Pos()), "Get does not consult the enclosing scope exactly when the name is absent locally")
-			}
-		}
+		m.envCases(s, rule, set)
 	}
 	// SetLoopVar only on a fresh scope
 	slv := m.Method("object", "Env", "SetLoopVar")
@@ -914,4 +780,189 @@ func derefOwnerOfPath(v ssa.Value) string {
 		}
 	}
 	return ""
+}
+
+// envCases decides the scoping rules of object.Env by evaluating Get and Set on abstract scope chains
+// (innermost -> middle -> outermost -> nil), with the variable placed in different scopes. The maps and the chain are
+// abstract objects of the interpreter; Get/Set and whatever helpers they use run on them unchanged.
+//
+//	Get:  the innermost binding wins; a binding two scopes out is still visible; an absent name is (nil, false).
+//	Set:  the name "loop" is refused; a visible variable (at any distance) of another type is refused; absent, nil or
+//	      same-typed variables are (re)bound — in the innermost scope only, the enclosing scopes stay as they were.
+func (m *Model) envCases(s *Sink, rule string, set *ssa.Function) {
+	get := m.Method("object", "Env", "Get")
+	envT := m.namedType("object", "Env")
+	intT, strT := m.namedType("object", "Int"), m.namedType("object", "Str")
+	if get == nil || envT == nil || intT == nil || strT == nil {
+		s.Undecided(rule, "object.Env", "-", "Env / Get / Int / Str not found")
+		return
+	}
+	est := envT.Underlying().(*types.Struct)
+	fStore, fOuter := -1, -1
+	for i := 0; i < est.NumFields(); i++ {
+		switch canonFieldName(envT, i, est.Field(i).Name()) {
+		case "store":
+			fStore = i
+		case "outer":
+			fOuter = i
+		}
+	}
+	if fStore < 0 || fOuter < 0 {
+		s.Undecided(rule, "object.Env fields", "-", "store / outer not found")
+		return
+	}
+	mkMap := func(kv map[string]any) *iMap {
+		mp := &iMap{vals: map[string]any{}, kval: map[string]constant.Value{}}
+		for k, v := range kv {
+			c := constant.MakeString(k)
+			mp.keys = append(mp.keys, c.ExactString())
+			mp.vals[c.ExactString()] = v
+			mp.kval[c.ExactString()] = c
+		}
+		return mp
+	}
+	type chain struct{ inner, mid, outer *iStruct }
+	mkChain := func(in, mid, out map[string]any) chain {
+		o := &iStruct{typ: envT, fields: map[int]any{fStore: mkMap(out), fOuter: iNil{}}}
+		md := &iStruct{typ: envT, fields: map[int]any{fStore: mkMap(mid), fOuter: o}}
+		i := &iStruct{typ: envT, fields: map[int]any{fStore: mkMap(in), fOuter: md}}
+		return chain{i, md, o}
+	}
+	obj := func(t *types.Named) *iStruct { return &iStruct{typ: t, fields: map[int]any{}} }
+	has := func(e *iStruct, k string) (any, bool) {
+		mp, _ := e.fields[fStore].(*iMap)
+		if mp == nil || mp.vals == nil {
+			return nil, false
+		}
+		v, ok := mp.vals[constant.MakeString(k).ExactString()]
+		return v, ok
+	}
+	run := func(fn *ssa.Function, args []any) (any, bool, string) {
+		ip := &Interp{m: m}
+		res, known := ip.Run(fn, args)
+		why := ip.stuck
+		for _, l := range ip.lost {
+			if shortPkg(fnPkgPath(l)) == "object" {
+				why = fnKey(l) + " could not be evaluated"
+			}
+		}
+		return res, known, why
+	}
+	// ---- Get
+	{
+		key := fnKey(get) + "|falls back to the enclosing scope exactly when absent"
+		a, bb, c := obj(intT), obj(intT), obj(strT)
+		type gcase struct {
+			name   string
+			ch     chain
+			want   any
+			wantOK bool
+		}
+		cases := []gcase{
+			{"bound in the innermost scope only", mkChain(map[string]any{"x": a}, nil, nil), a, true},
+			{"bound in the innermost and the outermost scope", mkChain(map[string]any{"x": a}, nil, map[string]any{"x": c}), a, true},
+			{"bound in the middle scope", mkChain(nil, map[string]any{"x": bb}, nil), bb, true},
+			{"bound in the outermost scope only (two scopes out)", mkChain(nil, nil, map[string]any{"x": c}), c, true},
+			{"bound nowhere", mkChain(nil, nil, nil), nil, false},
+		}
+		bad, und := "", ""
+		for _, gc := range cases {
+			res, known, why := run(get, []any{gc.ch.inner, constant.MakeString("x")})
+			if why != "" {
+				und = gc.name + ": " + why
+				break
+			}
+			tup, isT := res.(iTuple)
+			if !known || !isT || len(tup) != 2 {
+				und = gc.name + ": result not computable"
+				break
+			}
+			okc, isC := tup[1].(constant.Value)
+			if !isC || okc.Kind() != constant.Bool {
+				und = gc.name + ": found flag not computable"
+				break
+			}
+			if constant.BoolVal(okc) != gc.wantOK || (gc.wantOK && tup[0] != gc.want) {
+				bad = "with the name " + gc.name + " Get does not return the innermost visible binding"
+				break
+			}
+		}
+		switch {
+		case und != "":
+			s.Undecided(rule, key, m.Pos(get.Pos()), "Env.Get could not be evaluated for the case %s", und)
+		case bad != "":
+			s.Violation(rule, key, m.Pos(get.Pos()), "%s", bad)
+		default:
+			s.OK(rule, key, m.Pos(get.Pos()), "case evaluation on a chain of three scopes: innermost binding wins, bindings two scopes out are visible, absent names are not found")
+		}
+	}
+	// ---- Set
+	type scase struct {
+		name         string
+		key          string
+		in, mid, out map[string]any
+		val          *iStruct
+		wantStore    bool
+		clause       string // reserved | typed
+	}
+	oldInt, oldStr := obj(intT), obj(strT)
+	cases := []scase{
+		{"the reserved name loop", "loop", nil, nil, nil, obj(intT), false, "reserved"},
+		{"a new variable", "x", nil, nil, nil, obj(intT), true, "typed"},
+		{"a variable holding nil two scopes out", "x", nil, nil, map[string]any{"x": iNil{}}, obj(intT), true, "typed"},
+		{"a variable of the same type in the middle scope", "x", nil, map[string]any{"x": oldInt}, nil, obj(intT), true, "typed"},
+		{"a variable of the same type two scopes out", "x", nil, nil, map[string]any{"x": oldInt}, obj(intT), true, "typed"},
+		{"a variable of another type in the same scope", "x", map[string]any{"x": oldStr}, nil, nil, obj(intT), false, "typed"},
+		{"a variable of another type in the middle scope", "x", nil, map[string]any{"x": oldStr}, nil, obj(intT), false, "typed"},
+		{"a variable of another type two scopes out", "x", nil, nil, map[string]any{"x": oldStr}, obj(intT), false, "typed"},
+	}
+	verdict := map[string]string{"reserved": "", "typed": "", "innermost": ""}
+	und := ""
+	for _, sc := range cases {
+		ch := mkChain(sc.in, sc.mid, sc.out)
+		_, _, why := run(set, []any{ch.inner, constant.MakeString(sc.key), sc.val})
+		if why != "" {
+			und = sc.name + ": " + why
+			break
+		}
+		v, stored := has(ch.inner, sc.key)
+		stored = stored && v == any(sc.val)
+		if stored != sc.wantStore && verdict[sc.clause] == "" {
+			if sc.wantStore {
+				verdict[sc.clause] = "assigning " + sc.name + " is refused (or the value is not stored in the innermost scope)"
+			} else {
+				verdict[sc.clause] = "assigning over " + sc.name + " is accepted"
+			}
+		}
+		// the enclosing scopes are never written
+		for _, pr := range []struct {
+			e    *iStruct
+			orig map[string]any
+		}{{ch.mid, sc.mid}, {ch.outer, sc.out}} {
+			mp, _ := pr.e.fields[fStore].(*iMap)
+			if mp == nil || mp.vals == nil || len(mp.vals) != len(pr.orig) {
+				verdict["innermost"] = "with " + sc.name + " an enclosing scope is changed"
+				continue
+			}
+			for k, ov := range pr.orig {
+				if nv, ok := has(pr.e, k); !ok || nv != ov {
+					verdict["innermost"] = "with " + sc.name + " an enclosing scope is changed"
+				}
+			}
+		}
+	}
+	if und != "" {
+		s.Undecided(rule, fnKey(set)+"|case evaluation", m.Pos(set.Pos()), "Env.Set could not be evaluated for the case %s", und)
+		return
+	}
+	emit := func(key, okText, clause, consequence string) {
+		if verdict[clause] == "" {
+			s.OK(rule, fnKey(set)+"|"+key, m.Pos(set.Pos()), "%s", okText)
+		} else {
+			s.Violation(rule, fnKey(set)+"|"+key, m.Pos(set.Pos()), "%s: %s", verdict[clause], consequence)
+		}
+	}
+	emit("the name loop is refused", "case evaluation: with key \"loop\" nothing is stored", "reserved", "a template can overwrite the loop object")
+	emit("a value of another type is refused", "case evaluation over {absent, nil, same type, other type} x {same, middle, outermost scope}: stored exactly in the first three", "typed", "a visible variable can be silently retyped (or a legal assignment is refused)")
+	emit("writes only the innermost scope", "case evaluation: the middle and outermost scopes are unchanged after every Set", "innermost", "an assignment inside a block changes what the enclosing block sees afterwards")
 }
